@@ -120,7 +120,7 @@ def check_layout(model_dir, loaded, alignment, align_threshold, failures, tag):
 
 def prop_c07(tier, failures, counter, samples):
     thresholds = (0, 12, 160, 10 ** 6)
-    alignments = ((None, 0), (1, 0), (4096, 100), (65536, 0))
+    alignments = ((None, 0), (1, 0), (4096, 100), (65536, 0), (12288, 0), (10000, 100))   # incl. granularities that are not powers of two
     shards = (None, 1, 500, 10 ** 7)
     workers = (None, 4) if tier == "quick" else (None, 1, 4)
     for thr, (al, althr), sh, wk in itertools.product(thresholds, alignments, shards, workers):
@@ -352,6 +352,9 @@ def prop_c08(tier, failures, counter, samples):
                 shutil.rmtree(d, ignore_errors=True)
 
 
+HUNG = False
+
+
 def prop_c09(tier, failures, counter, samples):
     worker_opts = (2, 4, 6, 9, 12)
     budgets = (1, 64, 10 ** 9)
@@ -412,6 +415,85 @@ def prop_c09(tier, failures, counter, samples):
         finally:
             shutil.rmtree(d1, ignore_errors=True)
             shutil.rmtree(d2, ignore_errors=True)
+    # peak materialised bytes <= budget + largest tensor, also across shards that each hold an oversized tensor
+    for sizes, budget, sh, wk in (((150, 150), 100, 200, 4), ((150, 150, 150), 100, 200, 6), ((60, 60, 60), 100, 64, 3), ((60, 60, 60), 100, 64, 6),
+                                  ((40, 40, 40, 40, 40, 40), 100, None, 4), ((300, 20, 20, 300), 64, 400, 4)):
+        counter[0] += 1
+        tag = f"peak memory sizes={sizes} budget={budget} shard={sh} workers={wk}"
+        d = tempfile.mkdtemp(prefix="c09m_")
+        try:
+            vals = [ir.Value(name=f"t{i}", const_value=ir.Tensor(np.full((n,), i, dtype=np.uint8), name=f"t{i}")) for i, n in enumerate(sizes)]
+            g = ir.Graph([], [], nodes=[], initializers=vals, name="g", opset_imports={"": 18})
+            model = ir.Model(g, ir_version=10)
+            held = {"n": 0, "max": 0}
+            mlock = threading.Lock()
+            orig_tofile = ir.Tensor.tofile
+
+            def tofile(self, file, orig_tofile=orig_tofile, held=held, mlock=mlock):
+                with mlock:
+                    held["n"] += self.nbytes
+                    held["max"] = max(held["max"], held["n"])
+                time.sleep(0.02)
+                try:
+                    return orig_tofile(self, file)
+                finally:
+                    with mlock:
+                        held["n"] -= self.nbytes
+            with unittest.mock.patch.object(ir.Tensor, "tofile", tofile):
+                ir.save(model, os.path.join(d, "m.onnx"), external_data="w.data", max_shard_size_bytes=sh, max_workers=wk,
+                        max_in_flight_bytes=budget, size_threshold_bytes=0)
+            bound = budget + max(sizes)
+            if held["max"] > bound:
+                failures.append(f"{tag}: {held['max']} bytes were materialised at once, more than budget + largest tensor = {bound}")
+        except Exception as e:  # noqa: BLE001
+            failures.append(f"{tag}: raised {e!r}"[:200])
+        finally:
+            shutil.rmtree(d, ignore_errors=True)
+    # a failing tensor with a SMALL budget: the exception reaches the caller (nobody waits for ever on bytes that a failed
+    # writer still holds) - each save runs in a thread with a deadline
+    global HUNG
+    for sizes, budget, sh, wk in (((80, 30, 70), 110, 100, 4), ((100, 100, 100, 100, 100, 100), 100, None, 2), ((50, 60, 50, 60), 70, 64, 6)):
+        counter[0] += 1
+        tag = f"failing writer sizes={sizes} budget={budget} shard={sh} workers={wk}"
+        d = tempfile.mkdtemp(prefix="c09f_")
+        started = threading.Event()
+
+        class Failing(ir.Tensor):
+            def tofile(self, file):
+                started.wait(0.3)
+                raise RuntimeError("boom")
+        vals = []
+        for i, n in enumerate(sizes):
+            cls = Failing if i == 0 else ir.Tensor
+            vals.append(ir.Value(name=f"t{i}", const_value=cls(np.full((n,), i, dtype=np.uint8), name=f"t{i}")))
+        g = ir.Graph([], [], nodes=[], initializers=vals, name="g", opset_imports={"": 18})
+        model = ir.Model(g, ir_version=10)
+        orig_tofile = ir.Tensor.tofile
+        outcome = {}
+
+        def slow(self, file, orig_tofile=orig_tofile):
+            started.set()
+            time.sleep(0.05)
+            return orig_tofile(self, file)
+
+        def run(model=model, d=d, sh=sh, wk=wk, budget=budget, outcome=outcome):
+            try:
+                with unittest.mock.patch.object(ir.Tensor, "tofile", slow):
+                    ir.save(model, os.path.join(d, "m.onnx"), external_data="w.data", max_shard_size_bytes=sh, max_workers=wk,
+                            max_in_flight_bytes=budget, size_threshold_bytes=0)
+                outcome["r"] = "returned"
+            except BaseException as e:  # noqa: BLE001
+                outcome["r"] = repr(e)
+        th = threading.Thread(target=run, daemon=True)
+        th.start()
+        th.join(15)
+        if th.is_alive():
+            failures.append(f"{tag}: save did not finish within 15 s after a writer failed (a reservation was never released?)")
+            HUNG = True
+        elif "boom" not in outcome.get("r", ""):
+            failures.append(f"{tag}: the writer's exception did not reach the caller (outcome {outcome.get('r')})")
+        if not th.is_alive():
+            shutil.rmtree(d, ignore_errors=True)
     # an exception in a worker reaches the caller (after workers stopped: no thread of the pool is alive)
     for wk in (2, 6):
         counter[0] += 1
@@ -472,6 +554,9 @@ def main():
                              % (os.path.abspath(__file__), a.tier, a.prop), "failures": new[:15]}, open(path, "w"), indent=1)
         out["replay"] = path
     print(json.dumps(out))
+    if HUNG:
+        sys.stdout.flush()
+        os._exit(0)
 
 
 if __name__ == "__main__":
